@@ -391,6 +391,8 @@ class ReconnH(explore.Harness):
         elif k == "app-req":
             self.mute_app = True
             self.trigger_times.append((now, "app-req"))
+            cc = self._current_conn()
+            self.app_req_conns = getattr(self, "app_req_conns", []) + [(cc.cid if cc else None, len(self.net.attempts))]
             self.app_tasks.append(self.loop.create_task(self.pairing.put_characteristics([(1, 9, True)])))
         elif k.startswith("put-garbled"):
             self.garble_next = k.partition(":")[2] or "not-json"
@@ -606,6 +608,14 @@ class ReconnH(explore.Harness):
         for c in self.callers:
             if not c["task"].done():
                 out.append(("c10:waiting-caller-pending-at-horizon", {"kind": c["kind"]}))
+        # a request that got no answer for 30 s is the only way to notice a peer that vanished without FIN or RST: the connection it was sent on
+        # is given up (and, the pairing being open, attempts follow) - it is not kept as if nothing had happened
+        cur_ = self._current_conn()
+        for (cid, natt), t in zip(getattr(self, "app_req_conns", []), self.app_tasks):
+            if t.done() and not t.cancelled() and t.exception() is not None and cid is not None and cur_ is not None and cur_.cid == cid and self.pairing.is_connected \
+                    and len(self.net.attempts) == natt and self.closed_at is None:
+                out.append(("c10:connection-kept-after-its-request-went-unanswered-no-further-attempt", {"cid": cid, "err": type(t.exception()).__name__, "t": self.loop.time()}))
+                break
         if any(not t.done() for t in self.app_tasks):
             # 130 s after the last event: longer than every timer of the library (30 s per request, 10 s per wait for the connection)
             out.append(("c10:application-request-pending-at-horizon", {"pending": sum(1 for t in self.app_tasks if not t.done()), "t": self.loop.time()}))
